@@ -280,6 +280,8 @@ def doc_example_bundles(repo=REPO):
         flat = json.dumps(cfg)
         if "attributeName" in flat or "ruleId_" in flat or '"severity"' in flat or "group_name" in flat:
             continue
+        if '"regex"' in flat and '"case": "regex"' in flat:
+            continue      # naming by regular expression cannot be repaired by construction (the known C07 category "reports what it cannot repair"; explored through the option sweeps)
         keys = set()
         for k, v in cfg["rule"].items():
             if k == "group":
